@@ -99,6 +99,9 @@ def gen_case(rng):
     prog += [("OSSR", s), ("OSCheck", s), ("OSChannels", s), ("OSForge", s, True, True, False), ("SAdd", s, t, u), ("SAdd", t, s, v),
              ("TRepeat", s, [1], [chans[0]], [first_name], ["duration"], [[0.5]], w),
              ("OSAwg", s, ("slice", None, None, None)), ("OSSeqx", s, False), ("OSSeqx", s, True), ("OSLen", u), ("OSLen", v)]
+    # forge with its other option combinations (delays / filters off, time axis on): the gate does not depend on them
+    fl = rng.choice([(False, False, False), (False, True, False), (True, False, True), (False, False, True)])
+    prog.append(("OSForge", s) + fl)
     return {"prog": prog, "kind": deviation or ("gap" if gap else ("missing-" + missing if missing else "consistent")),
             "positions": positions, "order": order, "entries": {str(k): v for k, v in entries.items()},
             "have_sr": have_sr, "missing": missing, "deviation": deviation, "nent": nent, "long": long,
@@ -141,6 +144,10 @@ def oracle(case, impl):
                  "outputForSEQXFileWithFlags"]
         vals = [res["OSChannels"][0], res["OSForge"][0], res["SAdd"][0], res["SAdd"][1], res["TRepeat"][0],
                 res["OSAwg"][0], res["OSSeqx"][0], res["OSSeqx"][1]]
+        if len(res["OSForge"]) > 1:
+            fo = [op for op in prog if op[0] == "OSForge"][1]
+            names.append(f"forge(apply_delays={fo[2]}, apply_filters={fo[3]}, includetime={fo[4]})")
+            vals.append(res["OSForge"][1])
         for nm, v in zip(names, vals):
             if not isinstance(v, lang.Err):
                 out.append(f"{nm} produced output on an inconsistent sequence")
